@@ -93,6 +93,12 @@ CHECKS.update({
    text="Same seeded runs as C10; the reported invariant is page ownership: after every mutation every page of the file except page zero has exactly one owner (node of the tree, link of one overflow chain, member of the free list), the free list is acyclic and matches its recorded head and tail, and an operation never grows the file while the free list stays non-empty. Scope: one tree per file (the catalog and multi-tree databases are not audited)."),
 })
 
+CHECKS.update({
+ "C06": dict(engine="E1-sqlsim", level="exploration", ref="4 (C06), 2.3 (E1)",
+   technique="deterministic simulation, differential over plans: seeded histories (inserts, deletes, rollbacks, indexes created before or after the data) followed at quiescent points by plan-variant families of one logical query (index scan vs wrapped key, literal on either side, point vs range vs BETWEEN, merge join vs wrapped-key join), all compared with the reference model; EXPLAIN confirms that the variants use different physical operators",
+   text="At every quiescent point of a seeded history, families of spellings of one logical query are issued - col = v / v = col / col + 0 = v / degenerate range; lo <= col <= hi in six spellings; an equi-join with the key plain, wrapped, and with an extra WHERE - and every variant must return the multiset the reference model computes. A family counts as non-trivial only if EXPLAIN shows different physical operators among its variants. ANALYZE (open finding D34) and FROM-order permutations (D33) are not exercised."),
+})
+
 NOT_APPLICABLE = {
  "C05": "pure function of (table contents, query text): no schedule, crash point, clock or interleaving enters it; needs differential/property-based testing, not simulation",
  "C18": "pure function of (stored bytes, schema, snapshot, horizon); the property asks for bounded exhaustive enumeration of a codec, not simulation",
